@@ -133,7 +133,7 @@ class Program:
         if nd >= 1:
             names += ["transpose", "transpose_none", "conj", "dagger", "tensordot_conj", "tensordot_fresh", "add_fresh", "sub_same", "mul_fresh", "multiply_diagonal", "expand_dims", "expand_dims_charge", "align_axes", "einsum_perm", "max", "min", "transpose_inplace", "conj_inplace", "T", "H"]
         if nd >= 2:
-            names += ["fuse", "fuse", "fuse_concat", "fuse_inplace", "reshape", "reshape_flat", "fuse_unfuse", "tensordot_pair"]
+            names += ["fuse", "fuse", "fuse_concat", "fuse_inplace", "reshape", "reshape_flat", "fuse_unfuse", "tensordot_pair", "fuse_empty_group"]
         if any(ix.subinfo is not None for ix in x.indices):
             names += ["unfuse", "unfuse_all", "unfuse_inplace"] * 2
         if any(ix.size_total == 1 and next(iter(ix.chargemap)) == R.identity(sym) for ix in x.indices):
@@ -145,6 +145,8 @@ class Program:
                 names += ["trace", "einsum_trace"]
                 if x.charge == R.identity(sym):
                     names += ["eigh"]
+                    if x.blocks and all(np.asarray(b_).shape[0] == np.asarray(b_).shape[1] for b_ in x.blocks.values()):
+                        names += ["solve"]
         if nd == 0:
             names += ["item"]
         if ferm:
@@ -291,6 +293,22 @@ class Program:
             if name == "fuse_inplace":
                 return name, [x], (lambda a: a.fuse(*gs, inplace=True)), I(inplace=True)
             return name, [x], (lambda a: a.fuse(*gs).unfuse_all()), I()
+        if name == "fuse_empty_group":
+            from checks.c05 import groupings
+
+            gs = list(rng.choice(groupings(rng, nd, 4)))
+            gs.insert(rng.randint(0, len(gs)), ())
+            ee = rng.random() < 0.7
+            return name, [x], (lambda a: a.fuse(*gs, expand_empty=ee)), I()
+        if name == "solve":
+            # make the blocks well conditioned through public arithmetic: a + 5 * (block identity)
+            eye = type(x)(**dict(indices=x.indices, charge=x.charge, blocks={s_: (5.0 * np.eye(np.asarray(b_).shape[0])).astype(np.asarray(b_).dtype) for s_, b_ in x.blocks.items()}, **({} if type(x).static_symmetry else {"symmetry": x.symmetry})))
+            rhs = self.fresh(indices=[x.indices[0]], sparsity=0.0)
+
+            def f(a, e, b):
+                return sr.linalg.solve(a + e, b)
+
+            return name, [x, eye, rhs], f, I()
         if name in ("unfuse", "unfuse_inplace"):
             ax = rng.choice([i for i, ix in enumerate(x.indices) if ix.subinfo is not None])
             if name == "unfuse":
